@@ -274,9 +274,9 @@ def traces_from(out):
     for i in range(1, len(parts) - 1, 2):
         name = parts[i].strip(); body = parts[i + 1]
         vals = {}; n = 0
-        for m in re.finditer(r"^\s*vp_trace_val\[(\d+)l?\]=[^\n(]*\(0x([0-9A-Fa-f ]+)\)", body, re.M):
+        for m in re.finditer(r"^\s*vp_trace_val\[(\d+)l?\]=[^\n]*\(0x([0-9A-Fa-f ]+)\)\s*$", body, re.M):
             vals[int(m.group(1))] = int(m.group(2).replace(" ", ""), 16)
-        for m in re.finditer(r"^\s*vp_trace_n=[^\n(]*\(0x([0-9A-Fa-f ]+)\)", body, re.M):
+        for m in re.finditer(r"^\s*vp_trace_n=[^\n]*\(0x([0-9A-Fa-f ]+)\)\s*$", body, re.M):
             n = int(m.group(1).replace(" ", ""), 16)
         res[name] = [vals.get(k, 0) for k in range(min(n, TRACE_N))]
     return res
